@@ -29,6 +29,9 @@ ALLOW = {
     "builtin:RuntimeError": "exception construction",
     "builtin:TypeError": "exception construction",
     "builtin:type": "total",
+    "builtin:bool": "the truth test a statement would make anyway (`if x:` / `not x`); on the engine's own containers or a documented Sequence",
+    "builtin:range": "over an integer the engine computed",
+    "builtin:id": "total",
     "ext:collections.deque": "empty deque construction",
     "ext:exceptiongroup.ExceptionGroup": "non-empty list of Exception instances collected by `except Exception`",
     "builtin:ExceptionGroup": "non-empty list of Exception instances collected by `except Exception`",
@@ -167,6 +170,8 @@ def cont3(ctx: Ctx) -> None:
             total += 1
             if ok:
                 ctx.R.ok("CONT-3", f"{q}: {norm(acc)}", f"{c} is known non-empty on every path")
+            elif any(isinstance(l_, ast.For) and isinstance(l_.iter, ast.Call) and norm(l_.iter.func) == "range" for l_ in mod.ancestors(acc) if isinstance(l_, (ast.For, ast.While))):
+                ctx.R.undecided("CONT-3", f"`{norm(acc)}` sits in a counted loop (`for ... in range(...)`): whether the count is bounded by len({c}) is arithmetic this rule does not follow")
             else:
                 ctx.R.fail("CONT-3", mod, acc, f"`{norm(acc)}` is reachable with `{c}` possibly empty (no dominating non-emptiness test): IndexError escapes extract()",
                            construct=f"{norm(acc)} in {norm(_stmt(mod, acc))[:100]}")
@@ -1199,6 +1204,60 @@ def opt1(ctx: Ctx) -> None:
         raise AnalysisError("OPT-1: ExtractOptions has no class-level defaults any more")
 
 
+def _opt2_by_evaluation(ctx: Ctx, mod, cls, push, t: ast.Try, pre: List[ast.stmt], fields: List[str]) -> Optional[bool]:
+    """evaluate push with every option field holding an opaque old value and every parameter an opaque argument: at the yield
+    each option field must hold its argument, after the finally (reached normally and by exception) every field its old value.
+    Returns None when the body is outside the evaluator's fragment (conditions on opaque values, calls): the shape rule decides"""
+    import copy as _copy
+    from types import SimpleNamespace
+    from ..minieval import Mini, Opaque, Raised, Unsupported
+    ystmts = [s_ for s_ in t.body if isinstance(s_, ast.Expr) and isinstance(s_.value, ast.Yield)]
+    if len(ystmts) != 1 or t.handlers or t.orelse:
+        return None
+    yi = t.body.index(ystmts[0])
+    written = {w.attr for w in ast.walk(push) if isinstance(w, ast.Attribute) and isinstance(w.ctx, ast.Store) and norm(w.value) == "self"}
+    allf = sorted(set(fields) | written)
+    me = SimpleNamespace(**{f_: Opaque(f"old {f_}") for f_ in allf})
+    params = [a.arg for a in push.args.kwonlyargs + push.args.args if a.arg != "self"]
+    env = {"self": me}
+    env.update({p_: Opaque(f"arg {p_}") for p_ in params})
+    helpers = {h.name: h for h in cls.body if isinstance(h, ast.FunctionDef) and h is not push}
+    m = Mini(env, helpers)
+    try:
+        for s_ in pre + t.body[:yi]:
+            m.stmt(s_)
+        at_yield = {f_: getattr(me, f_) for f_ in allf}
+        snap = _copy.deepcopy(m.env)
+        # normal path
+        for s_ in t.body[yi + 1:] + t.finalbody:
+            m.stmt(s_)
+        after_ok = {f_: getattr(m.env["self"], f_) for f_ in allf}
+        # exceptional path: the rest of the try body is skipped
+        m2 = Mini(snap, helpers)
+        for s_ in t.finalbody:
+            m2.stmt(s_)
+        after_exc = {f_: getattr(m2.env["self"], f_) for f_ in allf}
+    except (Unsupported, Raised):
+        return None
+    except Exception:
+        return None
+    bad = False
+    for o in ("with_contexts", "recurse_child_tasks"):
+        if o in params and at_yield.get(o) != Opaque(f"arg {o}"):
+            bad = True
+            ctx.R.fail("OPT-2", mod, push, f"during the pushed scope ExtractOptions.{o} holds {at_yield.get(o)} instead of the argument `{o}` of push", construct="self.<opt> = <opt>")
+    for path, res in (("normally", after_ok), ("by exception", after_exc)):
+        for f_ in allf:
+            if res[f_] != Opaque(f"old {f_}"):
+                bad = True
+                ctx.R.fail("OPT-2", mod, t, f"ExtractOptions.{f_} is not restored from the saved value in the finally: when the scope ends {path} it holds {res[f_]} instead of its previous value; every change "
+                           "push makes to the thread-local options must be scoped to that push (save, try: yield, finally: restore), otherwise a nested extract leaves its value in force",
+                           construct=f"options field {f_} not scoped per push")
+    if not bad:
+        ctx.R.ok("OPT-2", f"push evaluated over opaque values: at the yield {at_yield}; every field of {allf} back to its previous value after the finally, on the normal and the exceptional path")
+    return not bad
+
+
 def opt2(ctx: Ctx) -> None:
     """OPT-2 everything ExtractOptions.push changes on the (thread-local) options object is saved before and restored, from the
     saved value, in a finally that encloses the yield -- unconditionally and per push.  A field that is set or reset only for
@@ -1221,6 +1280,10 @@ def opt2(ctx: Ctx) -> None:
         return
     t = tries[0]
     pre = push.body[:push.body.index(t)]
+    # ---- first try to *evaluate* push over symbolic field values (engine MINI): exact whatever the statement shapes are
+    verdict = _opt2_by_evaluation(ctx, mod, cls, push, t, pre, fields)
+    if verdict is not None:
+        return
     # saves: local name (and tuple position) -> field
     saved: Dict[str, str] = {}
     for s_ in pre:
@@ -1307,6 +1370,8 @@ def opt3(ctx: Ctx) -> None:
                 q = m.qualname_of(n)
                 if m.name == "_extract" and q == "ExtractOptions.push":
                     continue
+                if m.in_dead_helper(n):
+                    continue  # a helper the normaliser inlined at every call site: its body was judged there
                 ctx.R.fail("OPT-3", m, n, "an option field is written outside ExtractOptions.push: the save/restore discipline no longer covers every change")
             if isinstance(n, ast.Call) and norm(n.func) in ("setattr", "delattr") and n.args and "current_options" in norm(n.args[0]):
                 ctx.R.fail("OPT-3", m, n, "option field written through setattr")
@@ -1927,6 +1992,29 @@ def truth2(ctx: Ctx) -> None:
     ctx.R.ok("TRUTH-2", f"_extract.extract_iter: {n_use} uses of stack items {sorted(elements)} (from {sorted(containers)})", "identity / isinstance tests only; never a truth value or ==")
 
 
+def _asend_by_evaluation(fn: ast.FunctionDef) -> Optional[str]:
+    """evaluate the selector (engine MINI) with gc.get_referents(aw) == [own generator, payload], both having ag_frame:
+    'first' / 'last' by which one is returned, None when the body is outside the evaluator's fragment"""
+    from types import SimpleNamespace
+    from ..minieval import Mini, Raised, Unsupported, _Return
+    own, sent = SimpleNamespace(tag="own"), SimpleNamespace(tag="sent")
+    params = [a.arg for a in fn.args.args]
+    if len(params) != 1:
+        return None
+    env = {params[0]: SimpleNamespace(tag="aw"), "gc": SimpleNamespace(get_referents=lambda aw: [own, sent])}
+    m = Mini(env, {}, {"hasattr": lambda o_, n_: n_ == "ag_frame" and o_ in (own, sent)})
+    try:
+        for st in fn.body:
+            m.stmt(st)
+    except _Return as r:
+        return "first" if r.value is own else "last" if r.value is sent else None
+    except (Unsupported, Raised):
+        return None
+    except Exception:
+        return None
+    return None
+
+
 def asend1(ctx: Ctx) -> None:
     """ASEND-1 the awaitable of agen.asend(v) / agen.athrow(...) is followed to *its own* async generator.  The awaitable does
     not expose the generator, so the glue picks it from gc.get_referents(aw) by "has ag_frame".  FACTS (asend_referents): on every
@@ -1943,6 +2031,14 @@ def asend1(ctx: Ctx) -> None:
     later = sorted(v for v, o in own.items() if o["asend_sent_value_index"] and o["asend_sent_value_index"][0] > 0)
     for q, fn in cands:
         ctx.R.saw(mod, q)
+        ev = _asend_by_evaluation(fn)
+        if ev == "first":
+            ctx.R.ok("ASEND-1", f"_glue.{q}: evaluated with referents [own generator, sent async generator]: the own generator is returned", f"FACTS: own generator at index 0, sent value at index 1 on {sorted(own)}")
+            continue
+        if ev == "last":
+            ctx.R.fail("ASEND-1", mod, fn, f"{q} follows the *last* referent that has ag_frame; gc.get_referents(agen.asend(v)) is [agen, v] on CPython {later}, so when an async generator is "
+                       "sent into another one the stack continues into the payload instead of the generator being resumed (wrong frames, no error)", construct=f"{q}: last referent with ag_frame")
+            continue
         test = lambda e, var: isinstance(e, ast.Call) and norm(e.func) == "hasattr" and len(e.args) == 2 and isinstance(e.args[0], ast.Name) and e.args[0].id == var \
             and isinstance(e.args[1], ast.Constant) and e.args[1].value == "ag_frame"
         verdict = None
